@@ -44,6 +44,11 @@
 
 static int active = 0;
 static int rand_active = 0;
+static long swap_k = 0;          /* FSFAULT_SWAP=<k>|<path>|<alt>: when <path> is opened read-only for the k-th time, <alt> is */
+static long swap_seen = 0;       /* renamed over it first (another process replaces the file between two reads of one invocation) */
+static char swap_path[4096];
+static char swap_alt[4096];
+static const char *swap_base = NULL;
 static int clock_active = 0;
 static long long clock_off = 0;
 static long clock_jump_after = -1;
@@ -128,6 +133,26 @@ __attribute__((constructor)) static void init(void) {
     if (rs && *rs) {
         rand_state = strtoull(rs, NULL, 10);
         rand_active = 1;
+    }
+    const char *sw = getenv("FSFAULT_SWAP");
+    if (sw && *sw) {
+        char tmp[9000];
+        strncpy(tmp, sw, sizeof(tmp) - 1);
+        tmp[sizeof(tmp) - 1] = 0;
+        char *a = strchr(tmp, '|');
+        if (a) {
+            *a++ = 0;
+            char *b = strchr(a, '|');
+            if (b) {
+                *b++ = 0;
+                if (realpath(a, swap_path)) {
+                    strncpy(swap_alt, b, sizeof(swap_alt) - 1);
+                    swap_base = strrchr(swap_path, '/');
+                    swap_base = swap_base ? swap_base + 1 : swap_path;
+                    swap_k = atol(tmp);
+                }
+            }
+        }
     }
     const char *ck = getenv("FSFAULT_CLOCK");
     if (ck && *ck) {
@@ -310,6 +335,18 @@ static int tracked(int fd, char *rel, size_t sz) {
 
 static int do_open(int which, int dirfd, const char *path, int flags, mode_t mode) {
     char rel[4096];
+    if (swap_k > 0 && path && (flags & O_ACCMODE) == O_RDONLY && (dirfd == AT_FDCWD || path[0] == '/') && strstr(path, swap_base)) {
+        char rp[4096];
+        if (realpath(path, rp) && strcmp(rp, swap_path) == 0) {
+            pthread_mutex_lock(&mu);
+            long n = ++swap_seen;
+            pthread_mutex_unlock(&mu);
+            if (n == swap_k) {
+                if (!real_rename) resolve_syms();
+                real_rename(swap_alt, swap_path);
+            }
+        }
+    }
     int writable = (flags & O_ACCMODE) != O_RDONLY;
     int mutating = flags & (O_CREAT | O_TRUNC);
     int mine = active && (writable || mutating) && under_root(dirfd, path, rel, sizeof(rel));
